@@ -26,14 +26,14 @@ for f in $SD/demo/*.rs; do
 done
 [ -f $SD/demo/register_in_tests_rs.diff ] && git apply $SD/demo/register_in_tests_rs.diff
 FLAGS=""; FILTER=""
-if grep -qi "loom" $SD/notes.md && grep -q "nexosim_loom" $SD/demo/*.rs 2>/dev/null; then FLAGS="--cfg nexosim_loom"; fi
+if grep -q "cfg(nexosim_loom)" $SD/demo/*.rs 2>/dev/null && ! grep -q "not(nexosim_loom)" $SD/demo/*.rs 2>/dev/null; then FLAGS="--cfg nexosim_loom"; FILTER="-- $(basename $(ls $SD/demo/*.rs | head -1) .rs | cut -c1-6)"; fi
 if [ -n "$DEMOTESTS" ]; then CMD="cargo test --offline -p nexosim $DEMOTESTS --release"; else
   T=$(basename $(ls $SD/demo/*.rs | head -1) .rs); CMD="cargo test --offline -p nexosim --lib --release $T"; fi
 echo "demo cmd: RUSTFLAGS='$FLAGS' $CMD" >> $LOG
-RUSTFLAGS="$FLAGS" timeout 900 $CMD > $LOG.demo1 2>&1; R1=$?
+RUSTFLAGS="$FLAGS" timeout 1500 $CMD $FILTER > $LOG.demo1 2>&1; R1=$?
 echo "demo-with-patch: rc=$R1 $(grep -E '^test result' $LOG.demo1 | tr '\n' ' ')" >> $LOG
 git apply -R $SD/patch.diff
-RUSTFLAGS="$FLAGS" timeout 900 $CMD > $LOG.demo2 2>&1; R2=$?
+RUSTFLAGS="$FLAGS" timeout 1500 $CMD $FILTER > $LOG.demo2 2>&1; R2=$?
 echo "demo-without-patch: rc=$R2 $(grep -E '^test result' $LOG.demo2 | tr '\n' ' ')" >> $LOG
 git checkout -q -- . ; git clean -fdq -e target
 if [ $R1 -ne 0 ] && [ $R2 -eq 0 ]; then echo CONFIRMED >> $LOG; exit 0; fi
